@@ -74,6 +74,7 @@ func c09Server(p *ana.Prog, r *ana.Result, name string, scion bool) {
 	if rd == nil {
 		return
 	}
+	c09NTSState(p, r, "C09.nts-state", fn, rd)
 	hr := ana.CallsIn(fn, ana.Q("core/server.handleRequest"))
 	if len(hr) != 1 {
 		r.Violate("C09.gate", fname, "handleRequest-call", p.Pos(fn.Pos()), fmt.Sprintf("expected exactly one handleRequest call, found %d", len(hr)))
